@@ -99,10 +99,13 @@ func VH_C18_command_roundtrip() {
 				var part UEPolicyPart
 				part.UEPolicyPartType.SetPartType(vrt.U8(fmt.Sprintf("s%di%dp%dtype", s, i, p)))
 				part.SetPartContent(vrt.Bytes(fmt.Sprintf("s%di%dp%dc", s, i, p), cl))
+				part.SetLen(vrt.U16(fmt.Sprintf("s%di%dp%dstale", s, i, p))) // a stale length field (e.g. decoded, then modified) must not survive MarshalBinary
 				ins.UEPolicySectionContents.AppendUEPolicyPart(&part)
 			}
+			ins.SetLen(vrt.U16(fmt.Sprintf("s%di%dstale", s, i)))
 			sub.UEPolicySectionManagementSubListContents.AppendInstruction(ins)
 		}
+		sub.SetLen(vrt.U16(fmt.Sprintf("s%dstale", s)))
 		list.AppendSublist(sub)
 	}
 	content, err := list.MarshalBinary()
@@ -163,6 +166,7 @@ func VH_C18_reject_complete_roundtrip() {
 			r.FailInstructionOrder = vrt.U16(fmt.Sprintf("r%d_%dorder", s, i))
 			sr.UEPolicySectionManagementSubResultContents.AppendResult(r)
 		}
+		sr.SetLen(vrt.U16(fmt.Sprintf("r%dstale", s))) // stale length field: MarshalBinary recomputes it from content
 		rc.AppendSublist(sr)
 	}
 	content, err := rc.MarshalBinary()
